@@ -27,7 +27,8 @@ RULE = ('pairs (form, one-token neighbour) over random forms of the C01/C06 gene
 MIN_NONTRIVIAL = {'quick': 250, 'thorough': 6000}
 REQUIRED_COUNTERS = ['pairs:decided', 'pairs:key_differs', 'history:requests', 'history:cache_hits', 'history:preseeded_hits', 'freshness:classes_compared',
                      'freshness:generic_compared', 'modname:sources', 'real_compile:requests', 'hook:compile_cython_module', 'multi:classes']
-ASSUMPTIONS = ['"identical code" is decided on the generated Cython text: byte equality, else equality of a normal form (storage slots named by their variables, temporaries renamed to a '
+ASSUMPTIONS = ['when two texts under one cache key have different normal forms, "identical code" is decided by executing both finalized programs in the tree interpreter under 4 random environments (the generator may factor one form differently from run to run)',
+               '"identical code" is first decided on the generated Cython text: byte equality, else equality of a normal form (storage slots named by their variables, temporaries renamed to a '
                'digest of their definitions, lines sorted, temporaries assigned before use): the generator numbers temporaries in an identity-hash dependent order, so two generations of one form differ by such a renaming',
                'neighbours the compiler rejects or cannot generate code for are skipped (counted)']
 TIMEOUT = {'quick': 1500, 'thorough': 7200}
@@ -56,6 +57,38 @@ def same_code(a, b):
 def _first_diff(a, b):
     from forms import canon
     return canon.first_difference(a, b)
+
+# ---- semantic comparison of two finalized forms ----------------------------------------------------------------
+def semantic_equal(vfa, vfb, seed=12345, K=4):
+    """True / False / None (not decidable by the interpreter).  The code generator may factor the same form into different
+    temporaries from one generation to the next (its common-subexpression pass iterates over identity-hashed sets), so two
+    generations of one form need not have equal normal forms; they compute the same values, which is what is decided here by
+    executing both finalized programs under the same K random environments."""
+    from forms import treeinterp, sem, jets
+    try:
+        ea = treeinterp.TreeEnv(vfa, np.random.default_rng(seed), K=K); eb = treeinterp.TreeEnv(vfb, np.random.default_rng(seed), K=K)
+        va = treeinterp.run_program(vfa, ea); vb = treeinterp.run_program(vfb, eb)
+    except (treeinterp.Unknown, sem.Unsupported, jets.JetOrderError, treeinterp.ReadBeforeWrite, KeyError, IndexError):
+        return None
+    def flat(v):
+        if isinstance(v, list):
+            out = []
+            for x in v: out += flat(x)
+            return out
+        return [np.asarray(v, dtype=float)]
+    fa, fb = flat(va), flat(vb)
+    if len(fa) != len(fb): return False
+    for x, y in zip(fa, fb):
+        if x.shape != y.shape: return False
+        with np.errstate(all='ignore'):
+            if not np.all(np.abs(x - y) <= 1e-9 * (np.maximum(np.abs(x), np.abs(y)) + 1.0)): return False
+    return True
+
+def _finalized(desc, on_demand):
+    from forms import build
+    from pyiga import compile as C
+    vf = build.make_vform(desc); txt = C.generate(vf, on_demand=on_demand)
+    return vf, txt
 
 # ---- form helpers -----------------------------------------------------------------------------------------
 def _key_and_text(desc, on_demand):
@@ -89,6 +122,12 @@ def _pairs(rec, case, base, rng, limit):
                 rec.count('pairs:key_differs'); continue
             rec.count('pairs:key_equal')
             s = same_code(t1, t2)
+            if s is None:
+                # different text under one key: a different factorisation of the same program, or really another program?
+                try: sem_eq = semantic_equal(_finalized(base, od)[0], _finalized(d2, od)[0])
+                except Exception: sem_eq = None
+                if sem_eq: s = 'equivalent'
+                elif sem_eq is None: rec.count('pairs:key_equal_undecided'); continue
             if s is None:
                 rec.violation(dict(_sig_of(base), oracle='forms sharing a cache key generate identical code', token=kind, on_demand=od),
                               dict(case, base=base, neighbour=d2), {'first_difference': _first_diff(t1, t2), 'key': str(h1)})
@@ -153,11 +192,15 @@ def _history(rec, case):
         reqs.append(('pre', pre[int(rng.integers(0, len(pre)))]))
     g0 = gen.g0_forms(int(rng.integers(1, 4)))
     reqs.append(('desc', g0[int(rng.integers(0, len(g0)))]))
-    orig = C.compile_cython_module
+    orig = C.compile_cython_module; orig_gen = C.generate
+    src2vf = _POOL.setdefault('src2vf', {})
     def stub(src, verbose=False):
         rec.count('hook:compile_cython_module')
         return _StubModule(src)
-    C.compile_cython_module = stub
+    def gen_rec(vf, *a, **k):
+        src = orig_gen(vf, *a, **k); src2vf[src] = vf      # the (now finalized) form object a source was generated from
+        return src
+    C.compile_cython_module = stub; C.generate = gen_rec
     n = 0
     try:
         order = [int(i) for i in rng.integers(0, len(reqs), size=int(rng.integers(8, 20)))]
@@ -171,7 +214,7 @@ def _history(rec, case):
                 else:
                     vf = r[2](); ref = r[2]()
                     if vf.arity != 2: od = False
-                expected = C.generate(ref, on_demand=od)
+                expected = orig_gen(ref, on_demand=od)
             except Exception:
                 rec.count('history:request_not_generated'); continue
             before = rec.counters.get('hook:compile_cython_module', 0)
@@ -182,7 +225,11 @@ def _history(rec, case):
             sig = {'oracle': 'response implements the requested form', 'request': kind, 'on_demand': od, 'cache_hit': hit}
             if src is not None:
                 if same_code(src, expected) is None:
-                    rec.violation(sig, dict(case, request_index=i), {'first_difference': _first_diff(expected, src), 'request': r if kind == 'desc' else [r[0], r[1]]})
+                    vfr = src2vf.get(src)
+                    sem_eq = semantic_equal(vfr, ref) if vfr is not None else None
+                    if sem_eq: rec.count('history:equivalent_code')
+                    elif sem_eq is None: rec.count('history:undecided')
+                    else: rec.violation(sig, dict(case, request_index=i), {'first_difference': _first_diff(expected, src), 'request': r if kind == 'desc' else [r[0], r[1]]})
             else:
                 # a shipped (pre-seeded) assembler class: must be the class generated for this very form
                 rec.count('history:preseeded_hits')
@@ -193,7 +240,7 @@ def _history(rec, case):
                     rec.violation(dict(sig, oracle='a pre-seeded assembler is returned only for its own form', shipped=name), dict(case, request_index=i),
                                   {'request': r if kind == 'desc' else [r[0], r[1]], 'first_difference': _first_diff(exp_cls.strip(), (shipped or '').strip())})
     finally:
-        C.compile_cython_module = orig
+        C.compile_cython_module = orig; C.generate = orig_gen
     return n
 
 # ---- freshness ----------------------------------------------------------------------------------------------------
@@ -357,9 +404,19 @@ def _multi(rec, case):
         got = getattr(cls, 'source', '')
         name = got.split('(')[0].replace('cdef class ', '').strip() if got else ''
         n += 1; rec.count('multi:classes')
-        if same_code(exp.replace('CustomAssembler', 'X_'), got.replace(name, 'X_') if name else got) is None:
-            rec.violation(sig, dict(case, position=i, nforms=nforms), {'position': i, 'class_returned': name, 'first_difference': _first_diff(exp.replace('CustomAssembler', 'X_'), got.replace(name, 'X_') if name else got)})
-            break
+        gotx = got.replace(name, 'X_') if name else got
+        def matches(dd, tries):
+            for _ in range(tries):
+                e_ = _split_classes(C.generate(build.make_vform(dd))).get('CustomAssembler', '').replace('CustomAssembler', 'X_')
+                if same_code(e_, gotx) is not None: return True
+            return False
+        if same_code(exp.replace('CustomAssembler', 'X_'), gotx) is None and not matches(d, 6):
+            # not recognisably the class of form i (the generator may factor a form differently each time): is it another form's class?
+            other = [j for j, dj in enumerate(descs) if j != i and dj != d and matches(dj, 2)]
+            if other or name != 'CustomAssembler%d' % i:
+                rec.violation(sig, dict(case, position=i, nforms=nforms), {'position': i, 'class_returned': name, 'is_the_class_of_form': other[:3]})
+                break
+            rec.count('multi:undecided')
     return n
 
 def run_case(rec, case):
